@@ -167,7 +167,10 @@ ParseLoc(bytes) == ParseLocTokens(Split(bytes))
 
 (* ExtensionsMap::from_bytes: the text after the language identifier,      *)
 (* with or without its leading separator.                                   *)
-ParseExtTokens(toks) == LocResult(LocRun([LocStart0 EXCEPT !.ph = "ext"], toks))
+(* The serialised map starts with '-', so a leading empty token is normal.  *)
+ParseExtTokens(toks) ==
+    LocResult(LocRun([LocStart0 EXCEPT !.ph = "ext"],
+                     IF toks # <<>> /\ toks[1] = <<>> THEN Tail(toks) ELSE toks))
 ParseExt(bytes) == ParseExtTokens(Split(bytes))
 
 (* ----- serialisation: id, then t, u, x ---------------------------------- *)
